@@ -11,17 +11,23 @@ COMPONENTS = {
         "what": ("real System.Start/Stop/stop + context-guard goroutine. (A) real-time: real systems (actor trees of depth 0-3, with/without remoting "
                  "on loopback, start-up failure, trees that do not terminate within the timeout), every order of <=2 Start, <=3 Stop, <=1 cancel "
                  "sequentially and concurrently under GOMAXPROCS variations; the observed return-code vector must be admissible for the model's "
-                 "call-level specification (Lifecycle.admissible). (B) lock-step: system.go / system_chains.go instrumented from the current source "
-                 "(statusLock, the s.Context / s.clusterContext reads, Kill(root), cancel, the select, scheduler.Stop, ctx.Done) run under the "
-                 "controlled scheduler; every step's (label, status, s.Context!=nil, ctx cancelled, #guard goroutines), the per-call results and the "
-                 "final verdict are replayed on System/Lifecycle.v"),
+                 "call-level specification (Lifecycle.admissible); first of all 400 (quick) Start || Stop (|| Stop / cancel / Start) races on systems WITH metrics "
+                 "(the start-up chain takes actorOfLock under statusLock; no TCP port) under a 3 s watchdog - a lock-order deadlock is reported as "
+                 "c07-start-stop-deadlock naming, per lock, the call site that holds it and the call sites blocked in front of it. "
+                 "(B) lock-step: system.go / system_chains.go instrumented from the current source "
+                 "(statusLock AND actorOfLock, the s.Context / s.clusterContext reads, Kill(root), cancel, the select, scheduler.Stop, ctx.Done) run under the "
+                 "controlled scheduler, on plain and on metrics-enabled systems; every step's (label, status, s.Context!=nil, ctx cancelled, #guard goroutines), the per-call results and the "
+                 "final verdict are replayed on System/Lifecycle.v; all threads parked in front of held locks = c07-start-stop-deadlock with the lock cycle and the schedule; "
+                 "per run the lock operations of every thread are checked against the lock view System/LockOrder.v (respects statusLock < actorOfLock, is a program of that thread kind)"),
     },
 }
 
 PROPERTIES = {
     "C07": {
         "components": ["syslife"],
-        "rule": ("lock-step: depth-first enumeration with a preemption bound over 12 hand-picked call multisets plus seeded random multisets (<=2 Start, "
+        "rule": ("lock-step: depth-first enumeration with a preemption bound over 12 hand-picked call multisets (plain systems) and 6 (metrics-enabled systems: the "
+                 "step in front of `if system.options.Metrics != nil` is not reported, the model's chain step is the one starting at the acquisition of actorOfLock) "
+                 "plus seeded random multisets, one in five on a metrics-enabled system (<=2 Start, "
                  "<=3 Stop with/without timeout, <=1 cancel) under random and sticky schedulers, one case = one complete schedule (timer firings and root "
                  "termination are schedule events); real-time: one case = one scenario with its observed return codes. distinct = distinct "
                  "(configuration, schedule) / (scenario, outcome vector); non-trivial = at least two context switches / at least three calls"),
@@ -32,6 +38,10 @@ PROPERTIES = {
             "termination of the actor tree after Kill(root) (closing guardClosedSignal) is an environment event (C06's concern); cluster Leave completion is an environment event (no timeout in the code)",
             "the call-level specification Lifecycle.admissible (used by the real-time tier) shares status_after / the result tables with the theorems but is not itself proved equivalent to the micro-step model",
             "goroutines owned by go-quartz, net and the Go runtime are outside the model (the real-time leak monitor looks at them on the implementation only)",
+            "lock view (System/LockOrder.v, theorems C07_lock_*): a separate machine - the projection of Start / stop / guard / System.ActorOf onto Acq / Rel / Wait / Work programs with the "
+            "start-up chain refined into its k ActorOf calls; it is NOT proved to be a refinement of the micro-step model (which keeps the chain as one step under statusLock); its tie to the "
+            "code is the per-thread lock-operation check of the lock-step harness (only the two instrumented mutexes statusLock and actorOfLock; Context.childrenLock, futureLock etc. taken "
+            "inside Context.ActorOf are leaf locks outside this view; clustered / remoting start-up chains are modelled (k up to 5) but exercised by the real-time tier only)",
         ],
     },
 }
@@ -45,7 +55,11 @@ META = {
                  "cancel = Stop, termination of the guard goroutine once the context is cancelled, Stop terminates the system (every stop that returns nil "
                  "while a root exists issued exactly one Kill(root), cancelled the context and saw guardClosedSignal closed; the kill is skipped only when "
                  "root creation itself failed). Start's critical section (status switch + whole start-up chain under statusLock, /repo commit 0843af8) is modelled; "
-                 "the monitor stop-skipped-kill-and-cancel stays armed against the Start/Stop race that commit repaired."),
+                 "the monitor stop-skipped-kill-and-cancel stays armed against the Start/Stop race that commit repaired. "
+                 "Lock order: for every population of Start / Stop / guard / external System.ActorOf / cancel threads (start-up chain with any number of ActorOf calls under statusLock, "
+                 "clustered stop taking actorOfLock in Leave) and every interleaving - mutual exclusion of statusLock and actorOfLock, the wait-for relation is acyclic (a thread in front of a lock "
+                 "holds only lower-ranked locks; whoever waits for statusLock holds nothing), no deadlock on locks (generic lock-hierarchy theorem C07_lock_hierarchy_sound + C07_lock_programs_ordered); "
+                 "the inverted stop (actorOfLock before statusLock) is rejected and provably deadlocks (C07_lock_inversion_deadlocks)."),
         "design_ref": "DESIGN.md section 4 C07",
         "note": ("Trusted: Coq kernel; extraction; AST instrumenter (profile system) + controlled scheduler (harness/instr, harness/vsched); the harness's "
                  "goroutine-dump based leak monitor; M1, M3, M6; fairness of the Go scheduler for liveness."),
